@@ -3,6 +3,7 @@
 package newrelic
 
 import (
+	"os"
 	"errors"
 	"encoding/hex"
 	"fmt"
@@ -23,6 +24,8 @@ type vChunkConn struct {
 	chunks  [][]byte
 	written []byte
 	closed  bool
+	wbudget int // > 0: the peer accepts this many bytes in all; then it stalls and every write runs into its deadline
+	wlimit  bool
 }
 
 func (c *vChunkConn) Read(p []byte) (int, error) {
@@ -37,7 +40,22 @@ func (c *vChunkConn) Read(p []byte) (int, error) {
 	}
 	return n, nil
 }
-func (c *vChunkConn) Write(p []byte) (int, error)      { c.written = append(c.written, p...); return len(p), nil }
+func (c *vChunkConn) Write(p []byte) (int, error) {
+	if c.wlimit {
+		n := len(p)
+		if n > c.wbudget {
+			n = c.wbudget
+		}
+		c.written = append(c.written, p[:n]...)
+		c.wbudget -= n
+		if n < len(p) {
+			return n, os.ErrDeadlineExceeded // a net.Error whose Timeout() is true
+		}
+		return n, nil
+	}
+	c.written = append(c.written, p...)
+	return len(p), nil
+}
 func (c *vChunkConn) Close() error                     { c.closed = true; return nil }
 func (c *vChunkConn) LocalAddr() net.Addr              { return &net.UnixAddr{Name: "verif", Net: "unix"} }
 func (c *vChunkConn) RemoteAddr() net.Addr             { return &net.UnixAddr{Name: "verif", Net: "unix"} }
@@ -134,6 +152,10 @@ func vFrameOp(t []string) string {
 		}
 		return fmt.Sprintf("msgs=%s end=%s alloc=%s", vMsgs(ms), end, alloc)
 	case "serve":
+		if w, ok := vKV(t, "wlimit"); ok {
+			conn.wlimit = true
+			fmt.Sscanf(w, "%d", &conn.wbudget)
+		}
 		h := &vFrameHandler{}
 		serve(conn, h)
 		var again []string
